@@ -109,6 +109,141 @@ func rewriteList(list []ast.Stmt) []ast.Stmt {
 	return out
 }
 
+var poolSites int
+
+// rewritePools turns every mention of the type sync.Pool into simpool.Pool, a LIFO free
+// list with the same Get/Put/New surface that the rewrite adds to the scratch copy as
+// internal/simpool. sync.Pool hands out objects depending on the collector's timing and, in
+// race builds, drops a random quarter of the Puts, which would make a run that depends on
+// pooled objects (a transaction released twice, a page not reset) unrepeatable; the free
+// list makes such a run a pure function of the schedule.
+func rewritePools(f *ast.File, module string) {
+	pools, others := 0, 0
+	ast.Inspect(f, func(n ast.Node) bool {
+		sel, ok := n.(*ast.SelectorExpr)
+		if !ok {
+			return true
+		}
+		if id, ok := sel.X.(*ast.Ident); ok && id.Name == "sync" && id.Obj == nil {
+			if sel.Sel.Name == "Pool" {
+				id.Name = "simpool"
+				pools++
+			} else {
+				others++
+			}
+		}
+		return true
+	})
+	if pools == 0 {
+		return
+	}
+	poolSites += pools
+	for _, d := range f.Decls {
+		gd, ok := d.(*ast.GenDecl)
+		if !ok || gd.Tok != token.IMPORT {
+			continue
+		}
+		var kept []ast.Spec
+		for _, sp := range gd.Specs {
+			if is := sp.(*ast.ImportSpec); is.Path.Value == `"sync"` && others == 0 {
+				continue // nothing else of package sync is used in this file any more
+			}
+			kept = append(kept, sp)
+		}
+		kept = append(kept, &ast.ImportSpec{Name: ast.NewIdent("simpool"), Path: &ast.BasicLit{Kind: token.STRING, Value: `"` + module + `/internal/simpool"`}})
+		gd.Specs = kept
+		if gd.Lparen == token.NoPos {
+			gd.Lparen = gd.Pos() // force the parenthesised form
+			gd.Rparen = gd.End()
+		}
+		break
+	}
+}
+
+const simpoolRaceSrc = `//go:build race
+
+// Package simpool is added to a scratch copy of the repository by /verif/tools/instr.
+package simpool
+
+import "sync/atomic"
+
+// Pool has the surface of sync.Pool (Get, Put, New) and is a plain LIFO free list. Race
+// build: the simulator runs one thread at a time, so the list needs no lock; a lock would
+// order every Put before every later Get for the race detector. Like sync.Pool it orders
+// only the Put of an object before the Get that returns that very object (one atomic box
+// per stored object).
+type Pool struct {
+	items []*box
+	New   func() any
+}
+
+type box struct{ v atomic.Value }
+
+//go:norace
+func (p *Pool) Get() any {
+	if n := len(p.items); n > 0 {
+		b := p.items[n-1]
+		p.items[n-1] = nil
+		p.items = p.items[:n-1]
+		return b.v.Load()
+	}
+	if p.New != nil {
+		return p.New()
+	}
+	return nil
+}
+
+//go:norace
+func (p *Pool) Put(x any) {
+	if x == nil {
+		return
+	}
+	b := new(box)
+	b.v.Store(x)
+	p.items = append(p.items, b)
+}
+`
+
+const simpoolSrc = `//go:build !race
+
+// Package simpool is added to a scratch copy of the repository by /verif/tools/instr.
+package simpool
+
+import "sync"
+
+// Pool has the surface of sync.Pool (Get, Put, New) and is a plain LIFO free list: what it
+// hands out depends on the order of the calls only.
+type Pool struct {
+	mu    sync.Mutex
+	items []any
+	New   func() any
+}
+
+func (p *Pool) Get() any {
+	p.mu.Lock()
+	if n := len(p.items); n > 0 {
+		x := p.items[n-1]
+		p.items[n-1] = nil
+		p.items = p.items[:n-1]
+		p.mu.Unlock()
+		return x
+	}
+	p.mu.Unlock()
+	if p.New != nil {
+		return p.New()
+	}
+	return nil
+}
+
+func (p *Pool) Put(x any) {
+	p.mu.Lock()
+	p.items = append(p.items, x)
+	p.mu.Unlock()
+}
+`
+
+var module = "github.com/kelindar/column"
+
 func rewriteFile(path string) error {
 	fset := token.NewFileSet()
 	src, err := os.ReadFile(path)
@@ -120,7 +255,8 @@ func rewriteFile(path string) error {
 	if err != nil {
 		return err
 	}
-	before := sites + latchSites
+	before := sites + latchSites + poolSites
+	rewritePools(f, module)
 	ast.Inspect(f, func(n ast.Node) bool {
 		switch x := n.(type) {
 		case *ast.BlockStmt:
@@ -132,7 +268,7 @@ func rewriteFile(path string) error {
 		}
 		return true
 	})
-	if sites+latchSites == before {
+	if sites+latchSites+poolSites == before {
 		return nil
 	}
 	var buf bytes.Buffer
@@ -186,6 +322,23 @@ func main() {
 		os.Exit(2)
 	}
 	root := os.Args[1]
+	if b, err := os.ReadFile(filepath.Join(root, "go.mod")); err == nil {
+		for _, l := range strings.Split(string(b), "\n") {
+			if f := strings.Fields(l); len(f) == 2 && f[0] == "module" {
+				module = f[1]
+			}
+		}
+	}
+	if err := os.MkdirAll(filepath.Join(root, "internal", "simpool"), 0o755); err == nil {
+		err = os.WriteFile(filepath.Join(root, "internal", "simpool", "pool.go"), []byte(simpoolSrc), 0o644)
+		if err == nil {
+			err = os.WriteFile(filepath.Join(root, "internal", "simpool", "pool_race.go"), []byte(simpoolRaceSrc), 0o644)
+		}
+		if err != nil {
+			fmt.Fprintln(os.Stderr, err)
+			os.Exit(2)
+		}
+	}
 	for _, pkg := range []struct{ dir, name string }{{".", "column"}, {"commit", "commit"}} {
 		dir := filepath.Join(root, pkg.dir)
 		ents, err := os.ReadDir(dir)
@@ -212,5 +365,5 @@ func main() {
 			os.Exit(2)
 		}
 	}
-	fmt.Printf("instr: %d mutex sites, %d latch sites without a preceding hook\n", sites, latchSites)
+	fmt.Printf("instr: %d mutex sites, %d latch sites without a preceding hook, %d sync.Pool mentions\n", sites, latchSites, poolSites)
 }
